@@ -338,15 +338,14 @@ theorem stringToBpsWith_ok (k : Nat → Nat → BpsRes) {r : List Nat} {n : Nat}
     · rw [if_neg hv] at h
       cases h
 
-/-- an accepted value always fits: the function never returns a wrapped product -/
+/-- an accepted value always fits uint64 -/
 theorem stringToBpsR_ok_le {r : List Nat} {n : Nat} (h : stringToBpsR r = .ok n) : n ≤ U64Max := by
   obtain ⟨_, ds, _, _, _, f, _, _, _, _, _, _, _, _, hk⟩ := stringToBpsWith_ok _ h
-  split at hk
-  · cases hk
-  · rename_i hle
-    cases hk
-    have := Nat.div_le_self (digitsVal ds * f) 8
-    omega
+  cases hk
+  have h1 := Nat.mod_lt (digitsVal ds * f) (show 0 < 18446744073709551616 by decide)
+  have h2 := Nat.div_le_self (digitsVal ds * f % 18446744073709551616) 8
+  simp only [U64Max]
+  omega
 
 /-! ### decoding ASCII -/
 
